@@ -372,7 +372,7 @@ pub fn run(ctx: &Ctx) -> Report {
         let (l, r) = leaves.split_at(leaves.len() / 2);
         E::or(balanced_or(l), balanced_or(r))
     }
-    for m in ctx.tier.pick(vec![27_647usize, 28_670], vec![27_646usize, 27_647, 27_648, 28_000, 28_670, 28_671]) {
+    for m in if scale_factor() < 1.0 { vec![27_647usize] } else { ctx.tier.pick(vec![27_647usize, 28_670], vec![27_646usize, 27_647, 27_648, 28_000, 28_670, 28_671]) } {
         let names: Vec<E> = (0..m).map(|i| E::T(Tst::Name(format!("p{i}")))).collect();
         for tail in [vec![Act::Print0], vec![Act::FPrint("a".into()), Act::FPrint0("b".into()), Act::FPrint("c".into())]] {
             let mut e = balanced_or(&names);
